@@ -31,6 +31,8 @@ OUT = os.environ.get("VERIF_OUT", os.path.join(ROOT, "out"))
 EVIDENCE = os.environ.get("VERIF_EVIDENCE", os.path.join(ROOT, "evidence"))
 GEN = os.path.join(HARNESS, "target", "release", "gen")
 JOBS = int(os.environ.get("VERIF_JOBS", "16"))
+HEAVY_CHARS = 60000      # a case whose Gallina term is longer than this is "heavy" (see evaluate)
+HEAVY_JOBS = int(os.environ.get("VERIF_HEAVY_JOBS", "4"))
 
 sys.path.insert(0, os.path.dirname(os.path.abspath(__file__)))
 from properties import PROPS, CLASSES  # noqa: E402
@@ -314,16 +316,25 @@ def evaluate(cases, workdir, shard_weight=1500, timeout=1500):
             os.remove(os.path.join(workdir, f))
     shards = []
     cur, w = [], 0
-    total = sum(case_weight(c) for c in cases)
+    # cases with very large literals (bodies of 64 KiB and more) make coqc use several GB each: they get
+    # shards of their own, a few cases each, and at most HEAVY_JOBS of those run at the same time
+    heavy = [i for i, c in enumerate(cases) if len(c["coq"]) > HEAVY_CHARS]
+    heavy_set = set(heavy)
+    total = sum(case_weight(c) for i, c in enumerate(cases) if i not in heavy_set)
     # about one shard per core (each coqc start costs ~1 s user + ~1.5 s system time here)
     shard_weight = max(shard_weight, total // JOBS + 1)
     for i, c in enumerate(cases):
+        if i in heavy_set:
+            continue
         cw = case_weight(c)
         if cur and w + cw > shard_weight:
             shards.append(cur); cur, w = [], 0
         cur.append(i); w += cw
     if cur:
         shards.append(cur)
+    n_light = len(shards)
+    for off in range(0, len(heavy), 3):
+        shards.append(heavy[off:off + 3])
     jobs = []
     for k, idxs in enumerate(shards):
         path = os.path.join(workdir, "cases_%04d.v" % k)
@@ -336,8 +347,11 @@ def evaluate(cases, workdir, shard_weight=1500, timeout=1500):
                 fh.write("\n].\n")
         jobs.append((k, path, timeout))
     flags = [None] * len(cases)
-    with concurrent.futures.ThreadPoolExecutor(max_workers=JOBS) as ex:
-        for k, rc, out, dt in ex.map(run_shard, jobs):
+    for pool_jobs, workers in ((jobs[:n_light], JOBS), (jobs[n_light:], HEAVY_JOBS)):
+      if not pool_jobs:
+          continue
+      with concurrent.futures.ThreadPoolExecutor(max_workers=workers) as ex:
+        for k, rc, out, dt in ex.map(run_shard, pool_jobs):
             if rc != 0:
                 raise Infra("coqc failed on shard %d (rc=%d):\n%s" % (k, rc, out[-3000:]))
             answers = re.findall(r"=\s*(\[.*?\])\s*:\s*list N\b", out, re.S)
